@@ -27,6 +27,7 @@ import numpy as np
 
 from ..lib import core
 from ..lib.core import Failure, Disagreement
+from ..extract import propvals as _ex
 
 PROP = "C10"
 LEAN_MODULE = "NixModel.Props.C10"
@@ -48,6 +49,12 @@ THEOREMS = [
     "Nix.C10.C10_dict_consistent",
     "Nix.C10.C10_dict_setitem_getitem",
     "Nix.C10.C10_dict_delitem",
+    "Nix.C10.C10_get_dtype_is_source_chain",
+    "Nix.C10.C10_values_setter_is_source_order",
+    "Nix.C10.C10_extend_values_is_source_order",
+    "Nix.C10.C10_delete_values_is_source_order",
+    "Nix.C10.C10_source_checks_precede_writes",
+    "Nix.C10.C10_dict_is_source_order",
     "Nix.C10.C10_kept_objects_refine_lookups",
     "Nix.C10.C10_kept_object_reads_current",
     "Nix.C10.C10_kept_object_write_read",
@@ -77,7 +84,9 @@ ASSUMPTIONS = [
 ]
 TRUSTED_EXTRA = [
     "hand-written model lean/NixModel/Pure/PropVals.lean (+ PropHandles.lean: kept Property objects) of property.py / "
-    "section.py / datatype.py / container lookups",
+    "section.py / datatype.py / container lookups; the value-list methods, the get_dtype chain and the collections behind "
+    "the dictionary methods are proved to be the interpretation (Pure/PropShape.lean) of the statement lists "
+    "harness/extract/propvals.py regenerates from the source on every run",
 ]
 READY = True
 MANIFEST = {
@@ -90,7 +99,10 @@ MANIFEST = {
                   "precedes resize and write, so every refused call (TypeError, ValueError, OverflowError, lookup "
                   "errors) leaves the whole section unchanged; wrong-typed or mixed candidates are refused at every "
                   "element position (bool is not int); len/items/iteration/contains/getitem/setitem/delitem agree with "
-                  "the property and subsection lists. The model is tied to nixio by differential execution of random "
+                  "the property and subsection lists. The value-list methods, the get_dtype chain and the dictionary "
+                  "methods of the model are proved equal to the interpretation of statement lists regenerated from "
+                  "property.py / datatype.py / section.py by an ast translator on every run, and 'every refusing "
+                  "statement precedes the first write' is decided on those lists. The model is also tied to nixio by differential execution of random "
                   "histories on real HDF5 files (several Section objects and kept Property objects of the same "
                   "entities taking turns), comparing the whole section state after every call.",
     "level_note": "Trusted: Lean kernel; axioms propext/Classical.choice/Quot.sound; the hand-written model and the "
@@ -99,9 +111,17 @@ MANIFEST = {
                   "open after round 2 (NUL text refused after the resize, trailing NUL dropped, bare uint64 scalar "
                   "wrapping) are repaired in /repo (38c9f56, 578a510) and the full refusal theorem is proved.",
     "technique": "Lean 4 proof (inductive invariant over operation histories, refinement of histories with kept objects "
-                 "to histories of fresh lookups, case analysis of the isinstance chain) with differential correspondence "
-                 "on real HDF5 files",
+                 "to histories of fresh lookups, interpretation of source-generated statement lists) with an ast "
+                 "translator tie and differential correspondence on real HDF5 files",
 }
+
+
+
+def extract(repo):
+    """statement lists of Property.values (setter) / extend_values / delete_values, the isinstance chain of
+    DataType.get_dtype, the collections behind the Section dictionary methods -> Generated/PropValsShape.lean"""
+    return _ex.extract(repo)
+
 
 INT64_MIN, INT64_MAX = -2 ** 63, 2 ** 63 - 1
 MAIN_DTYPES = ("bool", "int64", "float64", "string")
